@@ -12,7 +12,7 @@ import (
 )
 
 func init() {
-	props["C07"] = &propDef{run: runC07, explanation: "Partial (the 'only if' direction and result fidelity). Decided statically: (G1) outside batch mode, Parse succeeds only across the success edge of every protocol rule, per operation type — size gate before decoding, known type, suffix-data and delta presence, every hash rule (length ≤ MaxOperationHashLength, algorithm ∈ MultihashAlgorithms), non-empty patches each with a supported+enabled action and a passing patch validator (for-all loop form), delta size ≤ MaxDeltaSize, delta-hash binding, signing-key rules (present, valid, curve ∈ KeyAlgorithms, nonce empty or of NonceSize), protected-header rules (C02.G4), anchor-origin and time validators, reveal-value match, key-reuse and distinct-commitment rules, deactivate suffix equality; (K1) every one of the nine Protocol parameters the parser/applier read reaches exactly its own sink (comparison with the right length, membership loop, arithmetic with anchorFrom), with the documented operator; (P1) the returned operation carries type, suffix, namespaced id, the original bytes and the anchor origin of the parsed request. Not decided: the 'if' direction (no spurious rejections inside encoding/json, net/url, go-jose) and the semantic correctness of individual patch rules (C13). The protected-header rules of C02.G4 run inside this check as well. Each size limit is compared at exactly one place. The algorithm half of the hash test compares the code GetMultihashCode decodes from a well-formed multihash. All of C06 and the duplicate-refusing header decoder rule run inside this check; the decoded request is not modified."}
+	props["C07"] = &propDef{extraPkgs: []string{jsonPatchPkg}, run: runC07, explanation: "Partial (the 'only if' direction and result fidelity). Decided statically: (G1) outside batch mode, Parse succeeds only across the success edge of every protocol rule, per operation type — size gate before decoding, known type, suffix-data and delta presence, every hash rule (length ≤ MaxOperationHashLength, algorithm ∈ MultihashAlgorithms), non-empty patches each with a supported+enabled action and a passing patch validator (for-all loop form), delta size ≤ MaxDeltaSize, delta-hash binding, signing-key rules (present, valid, curve ∈ KeyAlgorithms, nonce empty or of NonceSize), protected-header rules (C02.G4), anchor-origin and time validators, reveal-value match, key-reuse and distinct-commitment rules, deactivate suffix equality; (K1) every one of the nine Protocol parameters the parser/applier read reaches exactly its own sink (comparison with the right length, membership loop, arithmetic with anchorFrom), with the documented operator; (P1) the returned operation carries type, suffix, namespaced id, the original bytes and the anchor origin of the parsed request. Not decided: the 'if' direction (no spurious rejections inside encoding/json, net/url, go-jose) and the semantic correctness of individual patch rules (C13). The protected-header rules of C02.G4 run inside this check as well. Each size limit is compared at exactly one place. The algorithm half of the hash test compares the code GetMultihashCode decodes from a well-formed multihash. All of C06 and the duplicate-refusing header decoder rule run inside this check; the decoded request is not modified."}
 }
 
 func lenOf(p string) string  { return "len(" + p + ")" }
@@ -393,6 +393,9 @@ func runC07(c *Ctx) {
 	// "only alg/kid protected headers, an allowed algorithm": decided on the decoded header map — the decoder must
 	// refuse a header that spells a member twice
 	c.strictHeaderDecoderRule()
+	// "individually valid patches": ValidateDelta hands every patch to the patch validator, whose per-action rules are C13
+	// (with the JSON-patch pointer rules of C11)
+	runC13(c)
 }
 
 // keyReuse: success implies the false edge of GetCommitment(key, code(next)) == next.
